@@ -39,6 +39,9 @@ type World struct {
 	// connections accepted by daemons (server side reads): it is called with
 	// the available byte count and returns how many to hand out (>=1).
 	ReadChunk func(c *Conn, avail int) int
+	// blockedSrc: source IPs whose dials are refused (a process that was killed
+	// must not come back through its library's reconnect loop)
+	blockedSrc map[string]bool
 	// Yield, if set, is called at the start of every Write on an endpoint
 	// accepted by a daemon: a write is a system call, and other goroutines
 	// run while it is in progress.
@@ -650,6 +653,22 @@ func DialTimeout(network, address string, timeout time.Duration) (net.Conn, erro
 }
 
 // DialFrom is the harness entry point: connect from a chosen source IP.
+// BlockSource refuses every later dial from ip and resets its established connections.
+func (w *World) BlockSource(ip net.IP) {
+	w.mu.Lock()
+	if w.blockedSrc == nil {
+		w.blockedSrc = map[string]bool{}
+	}
+	w.blockedSrc[ip.String()] = true
+	conns := append([]*Conn(nil), w.conns...)
+	w.mu.Unlock()
+	for _, c := range conns {
+		if ta, ok := c.LocalAddr().(*net.TCPAddr); ok && !c.isServer && ta.IP.Equal(ip) && !c.IsDead() {
+			c.Reset()
+		}
+	}
+}
+
 func (w *World) DialFrom(srcIP net.IP, address string) (*Conn, error) {
 	return w.dial(context.Background(), address, srcIP, 0)
 }
@@ -671,6 +690,11 @@ func (w *World) dial(ctx context.Context, address string, srcIP net.IP, timeout 
 	}
 	w.nextEph++
 	eph := w.nextEph
+	if srcIP != nil && w.blockedSrc[srcIP.String()] {
+		w.Stats.Refused++
+		w.mu.Unlock()
+		return nil, opErr("dial", a, syscall.ECONNREFUSED)
+	}
 	w.mu.Unlock()
 
 	if mode == RefuseBlackhole {
